@@ -74,6 +74,19 @@ extern "C" void harness_main()
   put(".org 0xffffffff\n.db 1, 2\n");
 #elif FAMILY == 10   /* many operands */
   put("  mov.w r4"); for (int i = 0; i < L; i++) put(", r5"); put("\n");
+#elif FAMILY == 13   /* include recursion: a file that includes itself, two files that include each other */
+  { int kind = symx_fork("kind", 2);
+    if (kind == 0) put(".include \"in.asm\"\n");
+    else { put(".include \"other.inc\"\n"); symx_file_put("other.inc", ".include \"in.asm\"\n", 18); } }
+#elif FAMILY == 14   /* a run of prefix operators */
+  { int kind = symx_fork("kind", 3);
+    put(kind == 2 ? "  mov.w #" : ".db "); rep(kind == 1 ? '~' : '-', L); put(kind == 2 ? "1, r4\n" : "1\n"); }
+#elif FAMILY == 15   /* a run of backslashes / escapes inside quoted text */
+  { int kind = symx_fork("kind", 4);
+    if (kind == 0) { put(".macro M(a)\n .db a\n.endm\nM(\""); rep('\\', L); put("\")\n"); }
+    if (kind == 1) { put(".ascii \""); rep('\\', L); put("\"\n"); }
+    if (kind == 2) { put(".define D \""); rep('\\', L); put("\"\n.ascii D\n"); }
+    if (kind == 3) { put(".ascii \""); for (int i = 0; i < L / 2; i++) put("\\n"); put("\"\n"); } }
 #elif FAMILY == 11   /* conditional nesting depth */
   for (int i = 0; i < L; i++) put(".if 1\n"); put(".db 1\n"); for (int i = 0; i < L; i++) put(".endif\n");
 #endif
